@@ -19,6 +19,20 @@
         "reenc <differing offsets> <first differing offset | -> <bytes compared> <stale bytes>"
                                            NodeCodec.compare_segs (NodeCodec.leaf_segs entries) page
         "range ok" | "range FAIL <ecode>"  Image.leaf_in_range (separator <= keys < next, ascending)
+        "end"
+
+   lbmodel <stage>...   the extracted mirror LeafBuild.run_stages (bug = false) on the stages of an item;
+        one token per stage:  S;<separator hex>;<base>;<cutoff hex | ->;<ops>
+          <base> = - (none) | rc (remove_cutoff) | empty | <key hex>:<cell size>:<payload id>,...
+          <ops>  = <key hex>:<cell size>:<payload id> | <key hex>:d ,...   (may be empty)
+     -> "const <BODY> <MAXV> <MERGE> <BULK_THRESHOLD> <BULK_TARGET>"   the mirror's constants
+        "wf <0|1>"                         LeafBuild.stages_wf: the hypothesis of the theorems of LeafBuild_proofs
+        "panic"                            the mirror's updater / builder panics, or
+        "stage <i> <NeedsMerge key hex | -> <gauge body left>"   per stage
+        "leaf <j> <stage> <separator hex> <cutoff hex | -> <gauge body> <builder n> <builder values size>
+              <cells> <body of the cells> <first key hex | -> <last key hex | ->"   per predicted leaf
+        "ids <j> <payload id>..."          the cells of leaf j
+        "pending <separator override hex | -> <cells> <body of the cells> <payload id>..."
         "end" *)
 
 let int_of_n = Img_cmds.int_of_n
@@ -67,4 +81,77 @@ let handle (toks : string list) : string option =
                      (match bad with [] -> "-" | o :: _ -> string_of_int (int_of_n o))
                      (int_of_n cmp) (int_of_n stale);
                    range ])))
+  | "lbmodel" :: stages ->
+      let n_of_int = Img_cmds.n_of_int in
+      let cell_of_tok (t : string) : LeafBuild.cell =
+        match String.split_on_char ':' t with
+        | [ k; size; id ] ->
+            { LeafBuild.c_key = Img_cmds.key_of_hex k; c_size = n_of_int (int_of_string size); c_id = n_of_int (int_of_string id) }
+        | _ -> failwith "lbmodel cell syntax"
+      in
+      let op_of_tok (t : string) =
+        match String.split_on_char ':' t with
+        | [ k; "d" ] -> (Img_cmds.key_of_hex k, None)
+        | [ k; size; id ] -> (Img_cmds.key_of_hex k, Some (n_of_int (int_of_string size), n_of_int (int_of_string id)))
+        | _ -> failwith "lbmodel op syntax"
+      in
+      let list_of f (s : string) =
+        if s = "" then [] else Stdlib.List.map f (String.split_on_char ',' s)
+      in
+      let parse_stage (tok : string) : LeafBuild.stage =
+        match String.split_on_char ';' tok with
+        | [ "S"; sep; base; cutoff; ops ] ->
+            let sep = Img_cmds.key_of_hex sep in
+            let base, rc =
+              match base with
+              | "-" -> (None, false)
+              | "rc" -> (None, true)
+              | "empty" -> (Some { LeafBuild.b_sep = sep; b_cells = [] }, false)
+              | b -> (Some { LeafBuild.b_sep = sep; b_cells = list_of cell_of_tok b }, false)
+            in
+            { LeafBuild.sg_base = base; sg_rc = rc; sg_ops = list_of op_of_tok ops;
+              sg_cutoff = (if cutoff = "-" then None else Some (Img_cmds.key_of_hex cutoff)) }
+        | _ -> failwith "lbmodel stage syntax"
+      in
+      let sgs = Stdlib.List.map parse_stage stages in
+      let okey = function None -> "-" | Some k -> Img_cmds.hex_of_key k in
+      let ids (cs : LeafBuild.cell list) =
+        String.concat " " (Stdlib.List.map (fun c -> string_of_int (int_of_n c.LeafBuild.c_id)) cs)
+      in
+      let head =
+        [ Printf.sprintf "const %d %d %d %d %d" (int_of_n LeafBuild.coq_BODY) (int_of_n LeafBuild.coq_MAXV)
+            (int_of_n LeafBuild.coq_MERGE) (int_of_n LeafBuild.coq_BULK_THRESHOLD) (int_of_n LeafBuild.coq_BULK_TARGET);
+          Printf.sprintf "wf %d" (if LeafBuild.stages_wf sgs then 1 else 0) ]
+      in
+      (* self-test of the comparison: VERIF_LB_BUG=1 runs the mirror with the seeded off-by-one of the
+         split point (LeafBuild_proofs.leaves_fit_refuted); the engine must then report c01-lb-model *)
+      let bug = (match Sys.getenv_opt "VERIF_LB_BUG" with Some "1" -> true | _ -> false) in
+      (match LeafBuild.run_stages bug LeafBuild.u0 sgs with
+       | None -> Some (lines (head @ [ "panic" ]))
+       | Some (res, u) ->
+           let out = ref [] in
+           let j = ref 0 in
+           Stdlib.List.iteri
+             (fun i r ->
+               out := Printf.sprintf "stage %d %s %d" i (okey r.LeafBuild.sr_merge) (int_of_n r.LeafBuild.sr_left) :: !out;
+               Stdlib.List.iter
+                 (fun b ->
+                   let cs = b.LeafBuild.bl_cells in
+                   let first = match cs with [] -> "-" | c :: _ -> Img_cmds.hex_of_key c.LeafBuild.c_key in
+                   let last = match Stdlib.List.rev cs with [] -> "-" | c :: _ -> Img_cmds.hex_of_key c.LeafBuild.c_key in
+                   out :=
+                     Printf.sprintf "ids %d %s" !j (ids cs)
+                     :: Printf.sprintf "leaf %d %d %s %s %d %d %d %d %d %s %s" !j i (Img_cmds.hex_of_key b.LeafBuild.bl_sep)
+                          (okey b.LeafBuild.bl_cutoff) (int_of_n b.LeafBuild.bl_gauge) (State.int_of_nat b.LeafBuild.bl_n)
+                          (int_of_n b.LeafBuild.bl_vs) (Stdlib.List.length cs) (int_of_n (LeafBuild.body_of cs)) first last
+                     :: !out;
+                   incr j)
+                 r.LeafBuild.sr_built)
+             res;
+           let p = LeafBuild.pending u in
+           let pend =
+             Printf.sprintf "pending %s %d %d %s" (okey u.LeafBuild.u_sepov) (Stdlib.List.length p)
+               (int_of_n (LeafBuild.body_of p)) (ids p)
+           in
+           Some (lines (head @ Stdlib.List.rev !out @ [ pend ])))
   | _ -> None
